@@ -135,6 +135,8 @@ GlobalIdx(st, refs, i) == (CHOOSE e \in st.tab : e.u = UnitOf(refs, i) /\ e.key 
 \* vars always has both names.  <<"caller",k>>: the caller's variable (values[i] = reflect.ValueOf(ptr).Elem());
 \* <<"own",i>>: a variable made for this Run (reflect.New), initialised with a copy of the value when bound,
 \* zero otherwise; <<"px",0>>: the variable the native package p declared (Global.Value is valid).
+\* (the panic "variable already initialized" needs a Global with Pkg "main", a name in vars and a valid Value:
+\*  neither variant of the model produces one, p.X is always recorded under package "p")
 Bind(globals, sup) ==
   [i \in 1..Len(globals) |->
      LET g == globals[i] IN
